@@ -333,6 +333,14 @@ func builtinStringSplit(call FunctionCall) Value {
 		targetLength := len(target)
 		search := separatorValue.object().regExpValue().regularExpression
 		valueArray := []Value{}
+		if targetLength == 0 {
+			// 15.5.4.14 step 11: the empty string splits into no parts when the
+			// separator matches it, otherwise into the one (empty) part.
+			if !search.MatchString(target) {
+				valueArray = append(valueArray, stringValue(target))
+			}
+			return objectValue(call.runtime.newArrayOf(valueArray))
+		}
 		result := search.FindAllStringSubmatchIndex(target, -1)
 		lastIndex := 0
 		found := 0
